@@ -19,6 +19,13 @@ Proof.
     + intros x [->|Hx]; [intros Hc; apply Hn; apply in_app_iff; now right | now apply H3].
 Qed.
 
+Lemma fold_right_permutation_sum (l l' : list nat) :
+  Permutation l l' -> fold_right Nat.add 0 l = fold_right Nat.add 0 l'.
+Proof. induction 1; simpl; lia. Qed.
+
+Lemma fold_right_add_acc (l : list nat) a : fold_right Nat.add a l = fold_right Nat.add 0 l + a.
+Proof. induction l; simpl; lia. Qed.
+
 (** * Association lists *)
 Section Alist.
 Context {A : Type}.
@@ -599,7 +606,7 @@ Lemma straight_state_inv D0 nc th ret D st :
   exists cut, cut_height D nc th = Ok cut /\
               replay (straight_guard cut) (S (length D)) D (init_clusters (S (length D))) = Ok st.
 Proof.
-  unfold straight_state. destruct (cut_input D0 ret) as [D1|] eqn:E1; [|discriminate].
+  unfold straight_state, straight_state_with. destruct (cut_input D0 ret) as [D1|] eqn:E1; [|discriminate].
   destruct (cut_height D1 nc th) as [cut|] eqn:E2; [|discriminate].
   destruct (replay (straight_guard cut) (S (length D1)) D1 (init_clusters (S (length D1)))) as [st1|] eqn:E3; [|discriminate].
   intros H. inversion H; subst. split; [reflexivity|]. exists cut. now split.
@@ -796,11 +803,11 @@ Proof.
   assert (HinA : forall l l' x, Permutation l l' -> InA Qeq x l -> InA Qeq x l').
   { intros l0 l0' x P H. apply InA_Qeq_In in H. destruct H as [y [E Hy]]. apply InA_Qeq_In.
     exists y. split; [exact E|]. now apply (Permutation_in _ P). }
-  induction 1; intros H.
+  intros P. induction P as [|x l0 l0' P IH|x y l0|l0 l1 l2 P1 IH1 P2 IH2]; intros Hnd.
   - constructor.
-  - inversion H; subst. constructor; [|now apply IHPermutation].
-    intros Hc. apply (HinA _ _ _ (Permutation_sym H0)) in Hc. tauto.
-  - inversion H as [|? ? Hn1 H1]; subst. inversion H1 as [|? ? Hn2 H2]; subst.
+  - inversion Hnd as [|? ? Hn Hnd']; subst. constructor; [|now apply IH].
+    intros Hc. apply (HinA _ _ _ (Permutation_sym P)) in Hc. tauto.
+  - inversion Hnd as [|? ? Hn1 H1]; subst. inversion H1 as [|? ? Hn2 H2]; subst.
     constructor; [|constructor; [|assumption]].
     + intros Hc. inversion Hc; subst; [apply Hn1; left; now symmetry | tauto].
     + intros Hc. apply Hn1. now right.
@@ -816,21 +823,615 @@ Proof.
   - apply IH. intros t1 t2 r1 r2 H1 H2 Hne. apply (H (S t1) (S t2) r1 r2); simpl; auto.
 Qed.
 
-Lemma below_count cut D : below cut D = count_lt cut (heights D).
+Lemma below_count cut D : below (Some cut) D = count_lt cut (heights D).
 Proof.
   unfold below, count_lt, heights. induction D as [|r D IH]; simpl; [reflexivity|].
   destruct (qltb (r_height r) cut); simpl; now rewrite IH.
 Qed.
 
-Lemma below_sorted_le D m c : nth_error (sortq (heights D)) m = Some c -> below c D <= m.
+Lemma below_none D : below None D = length D.
+Proof. unfold below. induction D as [|r D IH]; simpl; [reflexivity | now rewrite IH]. Qed.
+
+Lemma below_cut_lt c r : below_cut (Some c) r = true <-> (r_height r < c)%Q.
+Proof. simpl. apply qltb_lt. Qed.
+
+Lemma below_cut_mono cut r r' : (r_height r' <= r_height r)%Q -> below_cut cut r = true -> below_cut cut r' = true.
+Proof.
+  destruct cut as [c|]; simpl; [|auto]. intros Hle H. apply qltb_lt. apply qltb_lt in H.
+  eapply Qle_lt_trans; eassumption.
+Qed.
+
+Lemma below_sorted_le D m c : nth_error (sortq (heights D)) m = Some c -> below (Some c) D <= m.
 Proof.
   intros H. rewrite below_count, <- (count_lt_perm c _ _ (sortq_perm (heights D))).
   exact (sorted_count_le _ (sortq_sorted _) m c H).
 Qed.
 
-Lemma below_sorted_eq D m c : distinct_heights D -> nth_error (sortq (heights D)) m = Some c -> below c D = m.
+Lemma below_sorted_eq D m c : distinct_heights D -> nth_error (sortq (heights D)) m = Some c -> below (Some c) D = m.
 Proof.
   intros Hd H. rewrite below_count, <- (count_lt_perm c _ _ (sortq_perm (heights D))).
   apply (sorted_count_eq _ (sortq_sorted _)); [|exact H].
   apply (NoDupA_Qeq_perm (heights D)); [symmetry; apply sortq_perm | now apply distinct_heights_NoDupA].
+Qed.
+
+(** * cut_straight: how many merges are applied *)
+Lemma firstn_S_nth {A} (l : list A) t r : nth_error l t = Some r -> firstn (S t) l = firstn t l ++ [r].
+Proof.
+  revert t. induction l as [|a l IH]; intros [|t] H; simpl in *; try discriminate.
+  - now inversion H.
+  - f_equal. now apply IH.
+Qed.
+
+Lemma below_app cut l1 l2 : below cut (l1 ++ l2) = below cut l1 + below cut l2.
+Proof. unfold below. now rewrite filter_app, app_length. Qed.
+
+Lemma replay_count_ge cut : forall rows key st st',
+  replay (straight_guard cut) key rows st = Ok st' -> length st <= length st' + below cut rows.
+Proof.
+  induction rows as [|r rows IH]; intros key st st' Hrun; simpl in Hrun.
+  - inversion Hrun; subst. lia.
+  - destruct (cut_step (straight_guard cut) key r st) as [st1|] eqn:Hs; [|discriminate].
+    specialize (IH _ _ _ Hrun). change (r :: rows) with ([r] ++ rows). rewrite below_app.
+    unfold cut_step in Hs.
+    destruct (alookup (r_left r) st) as [ci|] eqn:Hi; [|inversion Hs; subst; lia].
+    destruct (alookup (r_right r) st) as [cj|] eqn:Hj; [|inversion Hs; subst; lia].
+    destruct (straight_guard cut r ci cj) eqn:Hg; [|inversion Hs; subst; lia].
+    destruct (alookup (r_right r) (aremove (r_left r) st)) as [cj'|] eqn:Hj'; [|discriminate].
+    inversion Hs; subst st1. rewrite app_length in IH. simpl in IH.
+    apply aremove_length in Hi. apply aremove_length in Hj'.
+    unfold below at 1. simpl. unfold straight_guard in Hg. rewrite Hg. simpl. lia.
+Qed.
+
+Lemma hmono_child n D t r c : hmono n D = true -> nth_error D t = Some r -> In c (children r) -> n <= c ->
+  exists r', nth_error D (c - n) = Some r' /\ (r_height r' <= r_height r)%Q.
+Proof.
+  intros Hm Hr Hc Hn. unfold hmono in Hm. rewrite forallb_forall in Hm.
+  specialize (Hm r (nth_error_In _ _ Hr)). apply andb_true_iff in Hm. destruct Hm as [H1 H2].
+  assert (H : child_height_ok n D (r_height r) c = true) by (destruct Hc as [<-|[<-|[]]]; assumption).
+  unfold child_height_ok in H. replace (Nat.ltb c n) with false in H by (symmetry; apply Nat.ltb_ge; lia).
+  destruct (nth_error D (c - n)) as [r'|]; [|discriminate]. exists r'. split; [reflexivity|].
+  now apply Qle_bool_iff.
+Qed.
+
+Section StraightExact.
+Context (n : nat) (D : dendrogram) (cut : option Q) (Hv : valid n D = true) (Hm : hmono n D = true).
+
+Definition is_below (x : nat) : Prop :=
+  x < n \/ exists r, nth_error D (x - n) = Some r /\ below_cut cut r = true.
+
+Definition sinv (t : nat) (st : cstate) : Prop :=
+  cinv n D t st /\
+  (forall x, x < n + t -> ~ In x (flat_map children (firstn t D)) -> is_below x -> In x (akeys st)) /\
+  length st + below cut (firstn t D) = n /\
+  (forall t' r', t' < t -> nth_error D t' = Some r' -> below_cut cut r' = true ->
+                 exists k c, In (k, c) st /\ incl (leaves n D (n + t')) c).
+
+Lemma sinv_init : sinv 0 (init_clusters n).
+Proof.
+  split; [apply cinv_init|]. split; [|split].
+  - intros x Hx _ _. unfold init_clusters, akeys. rewrite map_map. simpl. rewrite map_id. apply in_seq. lia.
+  - simpl. unfold init_clusters. rewrite map_length, seq_length. unfold below. simpl. lia.
+  - intros t' r' Ht'. lia.
+Qed.
+
+Lemma sinv_step t r st : nth_error D t = Some r -> sinv t st ->
+  exists st', cut_step (straight_guard cut) (n + t) r st = Ok st' /\ sinv (S t) st'.
+Proof.
+  intros Hr (Hc & HK & HL & HT).
+  assert (Hids := valid_ids_lt n D Hv).
+  destruct (valid_rows n D Hv) as [_ Hrows]. specialize (Hrows t r Hr).
+  destruct Hrows as (Hne & Hil & Hjl & Hiu & Hju).
+  assert (Hfs := firstn_S_nth D t r Hr). unfold cut_step, straight_guard.
+  destruct (below_cut cut r) eqn:Hg.
+  - (* applied *)
+    assert (Hbel : forall c, In c (children r) -> is_below c).
+    { intros c Hcin. destruct (Nat.lt_ge_cases c n) as [Hlt|Hge]; [now left|]. right.
+      destruct (hmono_child n D t r c Hm Hr Hcin Hge) as [r' [Hr' Hle]]. exists r'. split; [exact Hr'|].
+      eapply below_cut_mono; eassumption. }
+    assert (Hik : In (r_left r) (akeys st)) by (apply HK; [lia | exact Hiu | apply Hbel; now left]).
+    assert (Hjk : In (r_right r) (akeys st)) by (apply HK; [lia | exact Hju | apply Hbel; right; now left]).
+    destruct (In_key_alookup _ _ Hik) as [ci Hi]. destruct (In_key_alookup _ _ Hjk) as [cj Hj].
+    rewrite Hi, Hj. rewrite alookup_aremove_neq by auto. rewrite Hj.
+    eexists. split; [reflexivity|]. unfold sinv. rewrite Hfs.
+    assert (Hstep : cut_step (straight_guard cut) (n + t) r st =
+                    Ok (aremove (r_right r) (aremove (r_left r) st) ++ [(n + t, ci ++ cj)])).
+    { unfold cut_step, straight_guard. rewrite Hi, Hj, Hg. rewrite alookup_aremove_neq by auto. now rewrite Hj. }
+    assert (Hc' := cut_step_cinv _ n D t r st _ Hids Hr Hc Hstep).
+    destruct Hc as (Hnd & Hcl & _).
+    split; [exact Hc'|]. split; [|split].
+    + intros x Hx Hnot Hb. rewrite flat_map_app, in_app_iff in Hnot. simpl in Hnot.
+      rewrite akeys_app, in_app_iff. simpl.
+      destruct (Nat.eq_dec x (n + t)) as [->|Hxn]; [right; now left|]. left.
+      apply akeys_aremove_neq; [apply akeys_aremove_neq|].
+      * apply HK; [lia | tauto | exact Hb].
+      * intros ->. apply Hnot. auto.
+      * intros ->. apply Hnot. auto.
+    + rewrite app_length, below_app. simpl. unfold below at 2. simpl. rewrite Hg. simpl.
+      apply aremove_length in Hi. assert (Hj2 : alookup (r_right r) (aremove (r_left r) st) = Some cj).
+      { rewrite alookup_aremove_neq by auto. exact Hj. }
+      apply aremove_length in Hj2. lia.
+    + intros t' r' Ht' Hr' Hg'. destruct (Nat.eq_dec t' t) as [->|Hne'].
+      * exists (n + t), (ci ++ cj). split; [apply in_app_iff; right; now left|].
+        rewrite (leaves_node n D t r Hids Hr).
+        destruct (Hcl _ _ (alookup_In _ _ _ Hi)) as (_ & -> & _).
+        destruct (Hcl _ _ (alookup_In _ _ _ Hj)) as (_ & -> & _). apply incl_refl.
+      * destruct (HT t' r' ltac:(lia) Hr' Hg') as (k & c & Hin & Hincl).
+        destruct (Nat.eq_dec k (r_left r)) as [->|Hk1].
+        { exists (n + t), (ci ++ cj). split; [apply in_app_iff; right; now left|].
+          assert (c = ci) by (apply (In_alookup _ _ _ Hnd) in Hin; congruence). subst c.
+          now apply incl_appl. }
+        destruct (Nat.eq_dec k (r_right r)) as [->|Hk2].
+        { exists (n + t), (ci ++ cj). split; [apply in_app_iff; right; now left|].
+          assert (c = cj) by (apply (In_alookup _ _ _ Hnd) in Hin; congruence). subst c.
+          now apply incl_appr. }
+        exists k, c. split; [|exact Hincl]. apply in_app_iff. left.
+        apply aremove_In_neq; [apply aremove_In_neq|]; assumption.
+  - (* not applied *)
+    exists st. split.
+    { destruct (alookup (r_left r) st); [|reflexivity]. destruct (alookup (r_right r) st); reflexivity. }
+    unfold sinv. rewrite Hfs.
+    assert (Hstep : cut_step (straight_guard cut) (n + t) r st = Ok st).
+    { unfold cut_step, straight_guard. rewrite Hg.
+      destruct (alookup (r_left r) st); [|reflexivity]. destruct (alookup (r_right r) st); reflexivity. }
+    split; [exact (cut_step_cinv _ n D t r st _ Hids Hr Hc Hstep)|]. split; [|split].
+    + intros x Hx Hnot Hb. rewrite flat_map_app, in_app_iff in Hnot.
+      destruct (Nat.eq_dec x (n + t)) as [->|Hxn].
+      * exfalso. destruct Hb as [Hb|[r' [Hr' Hg']]]; [lia|].
+        replace (n + t - n) with t in Hr' by lia. congruence.
+      * apply HK; [lia | tauto | exact Hb].
+    + rewrite below_app. unfold below at 2. simpl. rewrite Hg. simpl. lia.
+    + intros t' r' Ht' Hr' Hg'. destruct (Nat.eq_dec t' t) as [->|Hne']; [congruence|].
+      apply (HT t' r'); [lia | assumption | assumption].
+Qed.
+
+Lemma sinv_replay : forall rows done st, D = done ++ rows -> sinv (length done) st ->
+  exists st', replay (straight_guard cut) (n + length done) rows st = Ok st' /\ sinv (length D) st'.
+Proof.
+  induction rows as [|r rows IH]; intros done st HD Hinv.
+  - exists st. split; [reflexivity|]. rewrite HD, app_nil_r. exact Hinv.
+  - assert (Hr : nth_error D (length done) = Some r) by (rewrite HD; apply nth_error_app_length).
+    destruct (sinv_step (length done) r st Hr Hinv) as [st1 [Hs Hinv1]].
+    destruct (IH (done ++ [r]) st1) as [st' [Hrun Hfin]].
+    + now rewrite <- app_assoc.
+    + rewrite app_length. simpl. now rewrite Nat.add_1_r.
+    + exists st'. split; [|exact Hfin]. simpl. rewrite Hs.
+      rewrite app_length in Hrun. simpl in Hrun. now rewrite Nat.add_1_r, <- plus_n_Sm in Hrun.
+Qed.
+End StraightExact.
+
+Lemma qmax_ge_r a b : (b <= qmax a b)%Q.
+Proof.
+  unfold qmax. destruct (Qle_bool a b) eqn:E; [apply Qle_refl|].
+  apply Qlt_le_weak, Qnot_le_lt. intros Hc. apply Qle_bool_iff in Hc. congruence.
+Qed.
+
+Lemma cut_height_inv D nc th cut : cut_height D nc th = Ok cut ->
+  exists k c,
+    k = match nc with Some k => k | None => match th with None => 2 | Some _ => S (length D) end end /\
+    match nc with Some k => 1 <= k <= S (length D) | None => True end /\
+    nth_error (sortq (heights D)) (S (length D) - k) = Some c /\
+    cut = match th with None => c | Some t => qmax c t end.
+Proof.
+  unfold cut_height. intros H.
+  set (k := match nc with Some k => k | None => match th with None => 2 | Some _ => S (length D) end end).
+  assert (Hk : match nc with
+               | None => match th with None => Ok 2 | Some _ => Ok (S (length D)) end
+               | Some k => match check_n_clusters k (S (length D)) with Ok _ => Ok k | Err e => Err e end
+               end = Ok k -> match nc with Some k => 1 <= k <= S (length D) | None => True end).
+  { destruct nc as [k0|]; [|trivial]. unfold check_n_clusters.
+    destruct (Nat.ltb (S (length D)) k0) eqn:E1; [discriminate|].
+    destruct (Nat.ltb k0 1) eqn:E2; [discriminate|]. apply Nat.ltb_ge in E1, E2. intros _. lia. }
+  match type of H with match ?X with _ => _ end = _ => destruct X as [k'|] eqn:Ek end; [|discriminate].
+  assert (k' = k).
+  { unfold k. destruct nc as [k0|].
+    - destruct (check_n_clusters k0 (S (length D))); [now inversion Ek | discriminate].
+    - destruct th; now inversion Ek. }
+  subst k'. destruct (nth_error (sortq (heights D)) (S (length D) - k)) as [c|] eqn:Ec; [|discriminate].
+  exists k, c. split; [reflexivity|]. split; [now apply Hk|]. split; [exact Ec|]. now inversion H.
+Qed.
+
+Lemma pstate_length argsort st sort : argsort_ok argsort -> length (pstate argsort st sort) = length st.
+Proof. intros H. apply Permutation_length. now apply pstate_perm. Qed.
+
+Lemma cut_straight_count_ge argsort n D0 D nc sort ret labels od :
+  cut_input D0 ret = Ok D -> valid n D = true -> argsort_ok argsort ->
+  cut_straight argsort D0 (Some nc) None sort ret = Ok (labels, od) ->
+  nc <= num_clusters labels.
+Proof.
+  intros Hin Hv Hargs Hcut. apply cut_straight_inv in Hcut. destruct Hcut as (D' & st & Hst & Hlab).
+  apply straight_state_inv in Hst. destruct Hst as (Hin' & cut & Hcut & Hrep).
+  rewrite Hin in Hin'. inversion Hin'; subst D'. destruct (valid_rows n D Hv) as [Hlen _]. rewrite Hlen in *.
+  destruct (cut_generic _ argsort n D st sort ret labels od Hv Hargs Hrep Hlab) as (_ & _ & _ & Hsub & _).
+  rewrite (subtree_partition_num _ _ _ _ Hsub). unfold akeys. rewrite map_length, pstate_length by assumption.
+  apply cut_height_inv in Hcut. destruct Hcut as (k & c & -> & Hk & Hc & ->). rewrite Hlen in *.
+  apply below_sorted_le in Hc. apply replay_count_ge in Hrep.
+  unfold init_clusters in Hrep. rewrite map_length, seq_length in Hrep. lia.
+Qed.
+
+Lemma cut_straight_exact argsort n D0 D nc th sort ret labels od cut :
+  cut_input D0 ret = Ok D -> valid n D = true -> hmono n D = true -> argsort_ok argsort ->
+  cut_height D nc th = Ok cut ->
+  cut_straight argsort D0 nc th sort ret = Ok (labels, od) ->
+  num_clusters labels + below cut D = n /\
+  (forall t r, nth_error D t = Some r -> (r_height r < cut)%Q ->
+     forall u v, In u (leaves n D (n + t)) -> In v (leaves n D (n + t)) -> nth u labels 0 = nth v labels 0).
+Proof.
+  intros Hin Hv Hm Hargs Hcut Hres. apply cut_straight_inv in Hres. destruct Hres as (D' & st & Hst & Hlab).
+  apply straight_state_inv in Hst. destruct Hst as (Hin' & cut' & Hcut' & Hrep).
+  rewrite Hin in Hin'. inversion Hin'; subst D'. rewrite Hcut in Hcut'. inversion Hcut'; subst cut'.
+  destruct (valid_rows n D Hv) as [Hlen _]. rewrite Hlen in *.
+  destruct (sinv_replay n D cut Hv Hm D [] (init_clusters n) eq_refl (sinv_init n D cut)) as [st' [Hrep' Hfin]].
+  simpl in Hrep'. rewrite Nat.add_0_r, Hrep in Hrep'. inversion Hrep'; subst st'.
+  destruct Hfin as (Hc & _ & HL & HT). rewrite firstn_all in HL.
+  destruct (cut_generic _ argsort n D st sort ret labels od Hv Hargs Hrep Hlab) as (Hcp & P & El & Hsub & _).
+  split.
+  - rewrite (subtree_partition_num _ _ _ _ Hsub). unfold akeys. rewrite map_length, pstate_length by assumption. exact HL.
+  - intros t r Hr Hlt u v Hu Hv'. apply qltb_lt in Hlt.
+    assert (Ht : t < length D) by (apply nth_error_Some; congruence).
+    destruct (HT t r Ht Hr Hlt) as (k & c & Hkc & Hincl).
+    symmetry in P. apply (Permutation_in _ P) in Hkc. destruct (In_nth _ _ (0, []) Hkc) as [l [Hl Enth]].
+    destruct (cpart_labels n D _ Hcp) as (_ & _ & H3 & _). rewrite <- El in H3.
+    destruct (cpart_clusters n D _ Hcp) as (_ & _ & Hlt' & Hleaves).
+    destruct Hcp as (_ & Hcl & _). destruct (Hcl k c Hkc) as [Ec _].
+    assert (Hw : forall w, In w (leaves n D (n + t)) -> nth w labels 0 = l).
+    { intros w Hw. assert (Hwc : In w c) by now apply Hincl.
+      assert (Hwn : w < n).
+      { apply (Hlt' l w Hl). destruct (Hleaves l Hl) as [-> _]. rewrite Enth. simpl. now rewrite <- Ec. }
+      apply H3; [exact Hl | exact Hwn |]. rewrite Enth. simpl. now rewrite <- Ec. }
+    now rewrite (Hw u Hu), (Hw v Hv').
+Qed.
+
+Lemma replay_total guard : forall rows key st,
+  (forall r, In r rows -> r_left r <> r_right r) -> exists st', replay guard key rows st = Ok st'.
+Proof.
+  induction rows as [|r rows IH]; intros key st Hne; simpl; [now exists st|].
+  assert (Hs : exists st1, cut_step guard key r st = Ok st1).
+  { unfold cut_step. destruct (alookup (r_left r) st) as [ci|]; [|now eexists].
+    destruct (alookup (r_right r) st) as [cj|] eqn:Hj; [|now eexists].
+    destruct (guard r ci cj); [|now eexists].
+    rewrite alookup_aremove_neq by (intros E; apply (Hne r); [now left | now symmetry]). rewrite Hj. now eexists. }
+  destruct Hs as [st1 Hs]. rewrite Hs. apply IH. intros r' Hr'. apply Hne. now right.
+Qed.
+
+Lemma sortq_length l : length (sortq l) = length l.
+Proof. apply Permutation_length, sortq_perm. Qed.
+
+Lemma cut_straight_total argsort n D nc th sort :
+  valid n D = true -> 2 <= n ->
+  match nc with Some k => 2 <= k <= n | None => True end ->
+  exists labels, cut_straight argsort D nc th sort false = Ok (labels, None).
+Proof.
+  intros Hv Hn Hnc. destruct (valid_rows n D Hv) as [Hlen Hrows].
+  unfold cut_straight, straight_state, cut_input. simpl. rewrite Hlen.
+  assert (Hcut : exists cut, cut_height D nc th = Ok cut).
+  { unfold cut_height. rewrite Hlen.
+    set (k := match nc with Some k => k | None => match th with None => 2 | Some _ => n end end).
+    assert (Hk : match nc with
+                 | None => match th with None => Ok 2 | Some _ => Ok n end
+                 | Some k => match check_n_clusters k n with Ok _ => Ok k | Err e => Err e end
+                 end = Ok k).
+    { unfold k. destruct nc as [k0|]; [|now destruct th]. unfold check_n_clusters.
+      replace (Nat.ltb n k0) with false by (symmetry; apply Nat.ltb_ge; lia).
+      now replace (Nat.ltb k0 1) with false by (symmetry; apply Nat.ltb_ge; lia). }
+    rewrite Hk. assert (Hlt : n - k < length (sortq (heights D))).
+    { rewrite sortq_length. unfold heights. rewrite map_length. unfold k. destruct nc; [lia|]. destruct th; lia. }
+    apply nth_error_Some in Hlt. destruct (nth_error (sortq (heights D)) (n - k)) as [c|]; [|congruence].
+    eexists. reflexivity. }
+  destruct Hcut as [cut Hcut]. rewrite Hcut.
+  destruct (replay_total (straight_guard cut) D n (init_clusters n)) as [st Hst].
+  { intros r Hr. destruct (In_nth_error _ _ Hr) as [t Ht]. destruct (Hrows t r Ht) as [H _]. exact H. }
+  rewrite Hst. unfold get_labels. eexists. reflexivity.
+Qed.
+
+(** D6: n_clusters = 1 always raises IndexError (index n - 1 of the n - 1 sorted heights). *)
+Lemma cut_straight_one_cluster_fails argsort D th sort :
+  cut_straight argsort D (Some 1) th sort false = Err IndexError.
+Proof.
+  unfold cut_straight, straight_state, cut_input. simpl. unfold cut_height, check_n_clusters. simpl.
+  replace (length D - 0) with (length D) by lia.
+  assert (H : nth_error (sortq (heights D)) (length D) = None).
+  { apply nth_error_None. rewrite sortq_length. unfold heights. now rewrite map_length. }
+  now rewrite H.
+Qed.
+
+Lemma cut_straight_sorted argsort n D0 D nc th ret labels od :
+  cut_input D0 ret = Ok D -> valid n D = true -> argsort_ok argsort ->
+  cut_straight argsort D0 nc th true ret = Ok (labels, od) ->
+  sizes_sorted labels (num_clusters labels).
+Proof.
+  intros Hin Hv Hargs Hcut.
+  destruct (cut_straight_subtrees argsort n D0 D nc th true ret labels od Hin Hv Hargs Hcut) as [ids [Hsub Hs]].
+  rewrite (subtree_partition_num _ _ _ _ Hsub). now apply Hs.
+Qed.
+
+Lemma cut_balanced_sorted argsort n D m ret labels od :
+  valid n D = true -> argsort_ok argsort ->
+  cut_balanced argsort D m true ret = Ok (labels, od) ->
+  sizes_sorted labels (num_clusters labels).
+Proof.
+  intros Hv Hargs Hcut.
+  destruct (cut_balanced_subtrees argsort n D m true ret labels od Hv Hargs Hcut) as [ids [Hsub [Hs _]]].
+  rewrite (subtree_partition_num _ _ _ _ Hsub). now apply Hs.
+Qed.
+
+Lemma cut_straight_result_height argsort D0 D nc th sort ret labels od :
+  cut_input D0 ret = Ok D -> cut_straight argsort D0 nc th sort ret = Ok (labels, od) ->
+  exists cut, cut_height D nc th = Ok cut.
+Proof.
+  intros Hin Hcut. apply cut_straight_inv in Hcut. destruct Hcut as (D' & st & Hst & _).
+  apply straight_state_inv in Hst. destruct Hst as (Hin' & cut & Hc & _).
+  rewrite Hin in Hin'. inversion Hin'; subst. now exists cut.
+Qed.
+
+Lemma cut_straight_count_distinct argsort n D0 D nc sort ret labels od :
+  cut_input D0 ret = Ok D -> valid n D = true -> hmono n D = true -> distinct_heights D ->
+  argsort_ok argsort ->
+  cut_straight argsort D0 (Some nc) None sort ret = Ok (labels, od) ->
+  num_clusters labels = nc.
+Proof.
+  intros Hin Hv Hm Hd Hargs Hcut.
+  destruct (cut_straight_result_height _ _ _ _ _ _ _ _ _ Hin Hcut) as [cut Hc].
+  destruct (cut_straight_exact argsort n D0 D (Some nc) None sort ret labels od cut Hin Hv Hm Hargs Hc Hcut) as [Hnum _].
+  apply cut_height_inv in Hc. destruct Hc as (k & c & -> & Hk & Hnth & ->).
+  destruct (valid_rows n D Hv) as [Hlen _]. rewrite Hlen in *.
+  rewrite (below_sorted_eq D _ c Hd Hnth) in Hnum. lia.
+Qed.
+
+Lemma cut_straight_threshold argsort n D0 D nc theta sort ret labels od :
+  cut_input D0 ret = Ok D -> valid n D = true -> hmono n D = true -> argsort_ok argsort ->
+  cut_straight argsort D0 nc (Some theta) sort ret = Ok (labels, od) ->
+  forall t r, nth_error D t = Some r -> (r_height r < theta)%Q ->
+    forall u v, In u (leaves n D (n + t)) -> In v (leaves n D (n + t)) -> nth u labels 0 = nth v labels 0.
+Proof.
+  intros Hin Hv Hm Hargs Hcut t r Hr Hlt.
+  destruct (cut_straight_result_height _ _ _ _ _ _ _ _ _ Hin Hcut) as [cut Hc].
+  destruct (cut_straight_exact argsort n D0 D nc (Some theta) sort ret labels od cut Hin Hv Hm Hargs Hc Hcut) as [_ H].
+  apply (H t r Hr). apply cut_height_inv in Hc. destruct Hc as (k & c & _ & _ & _ & ->).
+  eapply Qlt_le_trans; [exact Hlt | apply qmax_ge_r].
+Qed.
+
+(** * The stable argsort satisfies the contract *)
+Lemma ins_z_perm x l : Permutation (ins_z x l) (x :: l).
+Proof.
+  induction l as [|y t IH]; simpl; [reflexivity|]. destruct (snd x <=? snd y)%Z; [reflexivity|].
+  rewrite IH. apply perm_swap.
+Qed.
+
+Lemma sortz_perm l : Permutation (fold_right ins_z [] l) l.
+Proof. induction l as [|x l IH]; simpl; [reflexivity|]. rewrite ins_z_perm. now constructor. Qed.
+
+Definition zle2 (p q : nat * Z) : Prop := (snd p <= snd q)%Z.
+
+Lemma ins_z_sorted x l : StronglySorted zle2 l -> StronglySorted zle2 (ins_z x l).
+Proof.
+  induction l as [|y t IH]; simpl; intros H.
+  - constructor; constructor.
+  - inversion H as [|? ? Hs Hall]; subst. destruct (snd x <=? snd y)%Z eqn:E.
+    + apply Z.leb_le in E. constructor; [exact H|]. constructor; [exact E|].
+      rewrite Forall_forall in *. intros z Hz. unfold zle2 in *. specialize (Hall z Hz). lia.
+    + apply Z.leb_gt in E. constructor; [now apply IH|].
+      rewrite Forall_forall in *. intros z Hz. apply (Permutation_in _ (ins_z_perm x t)) in Hz.
+      destruct Hz as [<-|Hz]; [unfold zle2; lia | now apply Hall].
+Qed.
+
+Lemma sortz_sorted l : StronglySorted zle2 (fold_right ins_z [] l).
+Proof. induction l as [|x l IH]; simpl; [constructor | now apply ins_z_sorted]. Qed.
+
+Lemma StronglySorted_nth {A} (R : A -> A -> Prop) l d :
+  (forall x, R x x) -> StronglySorted R l -> forall a b, a <= b -> b < length l -> R (nth a l d) (nth b l d).
+Proof.
+  intros Hrefl. induction 1 as [|x l Hs IH Hall]; intros a b Hab Hb; simpl in Hb; [lia|].
+  destruct a as [|a], b as [|b]; simpl; try lia.
+  - apply Hrefl.
+  - rewrite Forall_forall in Hall. apply Hall, nth_In. lia.
+  - apply IH; lia.
+Qed.
+
+Lemma map_fst_combine {A B} (a : list A) (b : list B) : length a = length b -> map fst (combine a b) = a.
+Proof.
+  revert b. induction a as [|x a IH]; intros [|y b]; simpl; intros E; try discriminate; [reflexivity|].
+  f_equal. apply IH. lia.
+Qed.
+
+Lemma combine_seq_In (l : list Z) s i z : In (i, z) (combine (seq s (length l)) l) -> nth (i - s) l 0%Z = z /\ s <= i.
+Proof.
+  revert s. induction l as [|y l IH]; intros s H; simpl in H; [tauto|].
+  destruct H as [H|H].
+  - inversion H; subst. now rewrite Nat.sub_diag.
+  - apply IH in H. destruct H as [H1 H2]. split; [|lia].
+    replace (i - s) with (S (i - S s)) by lia. exact H1.
+Qed.
+
+Lemma stable_argsort_ok : argsort_ok stable_argsort.
+Proof.
+  intros l. unfold stable_argsort. set (sp := fold_right ins_z [] (combine (seq 0 (length l)) l)).
+  assert (P : Permutation sp (combine (seq 0 (length l)) l)) by apply sortz_perm.
+  assert (Hlen : length sp = length l).
+  { rewrite (Permutation_length P), combine_length, seq_length. lia. }
+  split.
+  - assert (E := map_fst_combine (seq 0 (length l)) l ltac:(now rewrite seq_length)).
+    rewrite <- E. now apply Permutation_map.
+  - intros a b Hab Hb.
+    assert (Hnth : forall i, i < length l -> nth (nth i (map fst sp) 0) l 0%Z = snd (nth i sp (0, 0%Z))).
+    { intros i Hi. change 0 with (fst (0, 0%Z)) at 1. rewrite map_nth.
+      assert (Hin : In (nth i sp (0, 0%Z)) sp) by (apply nth_In; lia).
+      apply (Permutation_in _ P) in Hin. destruct (nth i sp (0, 0%Z)) as [j z]. simpl.
+      apply combine_seq_In in Hin. destruct Hin as [Hin _]. now rewrite Nat.sub_0_r in Hin. }
+    rewrite (Hnth a) by lia. rewrite (Hnth b) by lia.
+    apply (StronglySorted_nth zle2 sp (0, 0%Z)); [intros x; unfold zle2; lia | apply sortz_sorted | exact Hab | lia].
+Qed.
+
+(** * More about validity: sums, sizes, and a static criterion *)
+Lemma valid_run_sum : forall rows next live live',
+  valid_run next rows live = Some live' ->
+  sumn (map snd live') = sumn (map snd live) /\ length live' + length rows = length live.
+Proof.
+  induction rows as [|r rows IH]; intros next live live' H; simpl in H.
+  - inversion H; subst. simpl. lia.
+  - destruct r as [[[i j] h] s].
+    destruct (alookup i live) as [si|] eqn:Hi; [|discriminate].
+    destruct (alookup j live) as [sj|] eqn:Hj; [|discriminate].
+    destruct (negb (Nat.eqb i j) && Nat.eqb s (si + sj)) eqn:Hc; [|discriminate].
+    apply andb_true_iff in Hc. destruct Hc as [Hne Hs]. apply negb_true_iff, Nat.eqb_neq in Hne.
+    apply Nat.eqb_eq in Hs. apply IH in H. destruct H as [H1 H2].
+    assert (Hj2 : alookup j (aremove i live) = Some sj) by (rewrite alookup_aremove_neq by auto; exact Hj).
+    assert (P1 := aremove_perm _ _ _ Hi). assert (P2 := aremove_perm _ _ _ Hj2).
+    assert (S1 : sumn (map snd live) = si + sumn (map snd (aremove i live))).
+    { apply (Permutation_map snd) in P1. simpl in P1. unfold sumn.
+      rewrite (fold_right_permutation_sum _ _ P1). reflexivity. }
+    assert (S2 : sumn (map snd (aremove i live)) = sj + sumn (map snd (aremove j (aremove i live)))).
+    { apply (Permutation_map snd) in P2. simpl in P2. unfold sumn.
+      rewrite (fold_right_permutation_sum _ _ P2). reflexivity. }
+    rewrite map_app in H1. unfold sumn in *. rewrite fold_right_app in H1. simpl in H1.
+    rewrite app_length in H2. simpl in *.
+    apply aremove_length in Hi. apply aremove_length in Hj2.
+    rewrite (fold_right_add_acc _ (s + 0)) in H1. lia.
+Qed.
+
+Definition wsz (k : nat) (ws : list nat) (D : dendrogram) (x : nat) : nat :=
+  if Nat.ltb x k then nth x ws 0 else r_size (nth (x - k) D drow0).
+
+Lemma combine_seq_In_gen {A} (l : list A) d s i z :
+  In (i, z) (combine (seq s (length l)) l) -> nth (i - s) l d = z /\ s <= i < s + length l.
+Proof.
+  revert s. induction l as [|y l IH]; intros s H; simpl in H; [tauto|].
+  destruct H as [H|H].
+  - inversion H; subst. rewrite Nat.sub_diag. simpl. split; [reflexivity|lia].
+  - apply IH in H. destruct H as [H1 H2]. simpl. split; [|lia].
+    replace (i - s) with (S (i - S s)) by lia. exact H1.
+Qed.
+
+Lemma init_live_sizes ws D x s : In (x, s) (init_live ws) -> s = wsz (length ws) ws D x.
+Proof.
+  unfold init_live. intros H. apply (combine_seq_In_gen ws 0) in H. destruct H as [H1 H2].
+  unfold wsz. replace (Nat.ltb x (length ws)) with true by (symmetry; apply Nat.ltb_lt; lia).
+  now rewrite Nat.sub_0_r in H1.
+Qed.
+
+Lemma nth_error_nth' {A} (l : list A) t r d : nth_error l t = Some r -> nth t l d = r.
+Proof. intros H. now apply nth_error_nth. Qed.
+
+Lemma valid_run_sizes k ws D : forall rows done live live',
+  D = done ++ rows ->
+  (forall x s, In (x, s) live -> s = wsz k ws D x) ->
+  valid_run (k + length done) rows live = Some live' ->
+  (forall t r, length done <= t -> nth_error D t = Some r ->
+               r_size r = wsz k ws D (r_left r) + wsz k ws D (r_right r)) /\
+  (forall x s, In (x, s) live' -> s = wsz k ws D x).
+Proof.
+  induction rows as [|r rows IH]; intros done live live' HD Hsz Hrun.
+  - simpl in Hrun. inversion Hrun; subst. split; [|assumption].
+    intros t r Ht Hr. rewrite app_nil_r in Hr. assert (t < length done) by (apply nth_error_Some; congruence). lia.
+  - simpl in Hrun. destruct r as [[[i j] h] s] eqn:Er.
+    destruct (alookup i live) as [si|] eqn:Hi; [|discriminate].
+    destruct (alookup j live) as [sj|] eqn:Hj; [|discriminate].
+    destruct (negb (Nat.eqb i j) && Nat.eqb s (si + sj)) eqn:Hc; [|discriminate].
+    apply andb_true_iff in Hc. destruct Hc as [_ Hs]. apply Nat.eqb_eq in Hs.
+    assert (Hr : nth_error D (length done) = Some r) by (rewrite HD, Er; apply nth_error_app_length).
+    specialize (IH (done ++ [r]) (aremove j (aremove i live) ++ [(k + length done, s)]) live').
+    rewrite app_length in IH. simpl in IH. replace (k + (length done + 1)) with (S (k + length done)) in IH by lia.
+    rewrite <- app_assoc, Er in IH. simpl in IH.
+    destruct (IH HD) as [IH1 IH2]; [|exact Hrun|].
+    + intros x s' Hin. apply in_app_iff in Hin. destruct Hin as [Hin|[Hin|[]]].
+      * apply Hsz. now apply aremove_In, aremove_In in Hin.
+      * inversion Hin; subst x s'. unfold wsz.
+        replace (Nat.ltb (k + length done) k) with false by (symmetry; apply Nat.ltb_ge; lia).
+        replace (k + length done - k) with (length done) by lia.
+        rewrite (nth_error_nth' _ _ _ drow0 Hr), Er. reflexivity.
+    + split; [|exact IH2]. intros t r' Ht Hr'.
+      destruct (Nat.eq_dec t (length done)) as [->|Hneq]; [|apply (IH1 t r'); [lia|assumption]].
+      rewrite Hr in Hr'. inversion Hr'; subst r'. rewrite Er. unfold r_size, r_left, r_right. simpl.
+      rewrite <- (Hsz i si (alookup_In _ _ _ Hi)), <- (Hsz j sj (alookup_In _ _ _ Hj)). exact Hs.
+Qed.
+
+Lemma validw_sizes ws D : validw ws D = true ->
+  forall t r, nth_error D t = Some r ->
+    r_size r = wsz (length ws) ws D (r_left r) + wsz (length ws) ws D (r_right r).
+Proof.
+  unfold validw. intros H. apply andb_true_iff in H. destruct H as [H _].
+  apply andb_true_iff in H. destruct H as [_ Hrun].
+  destruct (valid_run (length ws) D (init_live ws)) as [live'|] eqn:E; [|discriminate].
+  destruct (valid_run_sizes (length ws) ws D D [] (init_live ws) live' eq_refl) as [H1 _].
+  - intros x s. apply init_live_sizes.
+  - simpl. now rewrite Nat.add_0_r.
+  - intros t r Hr. apply (H1 t r); [simpl; lia | exact Hr].
+Qed.
+
+Lemma static_run k ws D :
+  (forall t r, nth_error D t = Some r ->
+     row_ok k D t r /\ r_size r = wsz k ws D (r_left r) + wsz k ws D (r_right r)) ->
+  forall rows done live,
+  D = done ++ rows -> linv k done live -> (forall x s, In (x, s) live -> s = wsz k ws D x) ->
+  exists live', valid_run (k + length done) rows live = Some live'.
+Proof.
+  intros Hrows. induction rows as [|r rows IH]; intros done live HD Hinv Hsz; simpl; [now eexists|].
+  assert (Hr : nth_error D (length done) = Some r) by (rewrite HD; apply nth_error_app_length).
+  destruct (Hrows _ _ Hr) as [(Hne & Hil & Hjl & Hiu & Hju) Hs].
+  rewrite HD, firstn_app_length in Hiu, Hju.
+  destruct r as [[[i j] h] s] eqn:Er. unfold r_left, r_right, r_size in *. simpl in *.
+  destruct Hinv as (Hnd & Hkeys & Hch).
+  assert (Hik : In i (akeys live)) by (apply Hkeys; split; assumption).
+  assert (Hjk : In j (akeys live)) by (apply Hkeys; split; assumption).
+  destruct (In_key_alookup _ _ Hik) as [si Hi]. destruct (In_key_alookup _ _ Hjk) as [sj Hj].
+  rewrite Hi, Hj.
+  assert (Esi := Hsz _ _ (alookup_In _ _ _ Hi)). assert (Esj := Hsz _ _ (alookup_In _ _ _ Hj)).
+  replace (negb (Nat.eqb i j)) with true by (symmetry; apply negb_true_iff, Nat.eqb_neq; exact Hne).
+  replace (Nat.eqb s (si + sj)) with true by (symmetry; apply Nat.eqb_eq; lia). simpl.
+  assert (Hstep := valid_run_step k done live r (conj Hnd (conj Hkeys Hch)) si sj).
+  rewrite Er in Hstep. unfold r_left, r_right in Hstep. simpl in Hstep. specialize (Hstep Hi Hj Hne s).
+  destruct (IH (done ++ [(i, j, h, s)]) (aremove j (aremove i live) ++ [(k + length done, s)])) as [live' Hl].
+  - rewrite <- app_assoc. exact HD.
+  - exact Hstep.
+  - intros x s' Hin. apply in_app_iff in Hin. destruct Hin as [Hin|[Hin|[]]].
+    + apply Hsz. now apply aremove_In, aremove_In in Hin.
+    + inversion Hin; subst x s'. unfold wsz.
+      replace (Nat.ltb (k + length done) k) with false by (symmetry; apply Nat.ltb_ge; lia).
+      replace (k + length done - k) with (length done) by lia.
+      now rewrite (nth_error_nth' _ _ _ drow0 Hr).
+  - exists live'. rewrite app_length in Hl. simpl in Hl. now rewrite Nat.add_1_r, <- plus_n_Sm in Hl.
+Qed.
+
+Lemma valid_run_app : forall r1 r2 next live,
+  valid_run next (r1 ++ r2) live =
+  match valid_run next r1 live with Some l1 => valid_run (next + length r1) r2 l1 | None => None end.
+Proof.
+  induction r1 as [|r r1 IH]; intros r2 next live; simpl; [now rewrite Nat.add_0_r|].
+  destruct r as [[[i j] h] s]. destruct (alookup i live); [|reflexivity]. destruct (alookup j live); [|reflexivity].
+  destruct (negb (Nat.eqb i j) && Nat.eqb s (n + n0)); [|reflexivity].
+  rewrite IH. now rewrite <- plus_n_Sm.
+Qed.
+
+Lemma map_snd_combine {A B} (a : list A) (b : list B) : length a = length b -> map snd (combine a b) = b.
+Proof.
+  revert b. induction a as [|x a IH]; intros [|y b]; simpl; intros E; try discriminate; [reflexivity|].
+  f_equal. apply IH. lia.
+Qed.
+
+(** Static criterion: rows that are locally well-formed with consistent sizes make a valid dendrogram. *)
+Lemma static_validw ws D :
+  S (length D) = length ws ->
+  (forall t r, nth_error D t = Some r ->
+     row_ok (length ws) D t r /\
+     r_size r = wsz (length ws) ws D (r_left r) + wsz (length ws) ws D (r_right r)) ->
+  validw ws D = true.
+Proof.
+  intros Hlen Hrows. unfold validw. rewrite Hlen, Nat.eqb_refl. simpl.
+  destruct (static_run (length ws) ws D Hrows D [] (init_live ws) eq_refl (linv_init ws)) as [live' Hrun].
+  { intros x s. apply init_live_sizes. }
+  simpl in Hrun. rewrite Nat.add_0_r in Hrun. rewrite Hrun. simpl.
+  destruct D as [|r0 D0] eqn:ED; [reflexivity|]. rewrite <- ED in *.
+  assert (Hne : D <> []) by (rewrite ED; discriminate).
+  destruct (exists_last Hne) as [D1 [r Er]].
+  assert (Hfull := Hrun). rewrite Er in Hrun. rewrite Er at 1. rewrite last_last.
+  rewrite valid_run_app in Hrun.
+  destruct (valid_run (length ws) D1 (init_live ws)) as [l1|] eqn:E1; [|discriminate].
+  assert (Hlast : exists l0, live' = l0 ++ [(length ws + length D1, r_size r)]).
+  { simpl in Hrun. destruct r as [[[i j] h] s]. destruct (alookup i l1) as [si|]; [|discriminate].
+    destruct (alookup j l1) as [sj|]; [|discriminate].
+    destruct (negb (Nat.eqb i j) && Nat.eqb s (si + sj)); [|discriminate]. inversion Hrun. eexists. reflexivity. }
+  destruct Hlast as [l0 ->]. apply valid_run_sum in Hfull. destruct Hfull as [S1 S2].
+  unfold init_live in S1, S2. rewrite map_snd_combine in S1 by now rewrite seq_length.
+  rewrite combine_length, seq_length, Nat.min_id, <- Hlen, app_length in S2. simpl in S2.
+  assert (Hl0 : l0 = []) by (destruct l0; [reflexivity | simpl in S2; lia]).
+  subst l0. simpl in S1. apply Nat.eqb_eq. lia.
 Qed.
